@@ -255,6 +255,18 @@ func (k *TGSReq) setPAData(tgt Ticket, sessionKey types.EncryptionKey) error {
 	if err != nil {
 		return krberror.Errorf(err, krberror.KRBMsgError, "error generating new AP_REQ")
 	}
+	if authenticatorKeyUsage(tgt.SName) != keyusage.TGS_REQ_PA_TGS_REQ_AP_REQ_AUTHENTICATOR {
+		// The authenticator within a PA-TGS-REQ is always encrypted with the TGS-REQ key usage, also when the ticket
+		// presented is not a TGT, as is the case when a service ticket is renewed.
+		m, err := auth.Marshal()
+		if err != nil {
+			return krberror.Errorf(err, krberror.EncodingError, "error marshaling authenticator")
+		}
+		apReq.EncryptedAuthenticator, err = crypto.GetEncryptedData(m, sessionKey, keyusage.TGS_REQ_PA_TGS_REQ_AP_REQ_AUTHENTICATOR, tgt.EncPart.KVNO)
+		if err != nil {
+			return krberror.Errorf(err, krberror.EncryptingError, "error encrypting authenticator")
+		}
+	}
 	apb, err := apReq.Marshal()
 	if err != nil {
 		return krberror.Errorf(err, krberror.EncodingError, "error marshaling AP_REQ for pre-authentication data")
